@@ -176,7 +176,7 @@ Qed.
 
 Theorem typing_perm_e pe pe' : decl_perm pe pe' -> ProgOKe teq pe -> ProgOKe teq pe'.
 Proof.
-  intros [ET [PF [PP PA]]] [SD NF [Sg [SO [FO PO]]] NA TA NP DJ U1 U2 U3 AC].
+  intros [ET [PF [PP PA]]] [SD NF [Sg [SO [FO PO]]] NA TA NP DJ U1 U2 U3 AC PN].
   destruct (Forall2_perm _ _ _ PF _ SO) as [Sg' [SO' PS]].
   assert (NS : NoDup (map fs_name Sg)) by (rewrite (sig_of_names _ _ _ SO); exact NF).
   pose proof (sig_lookup_perm _ _ PS NS) as EXT.
@@ -209,6 +209,7 @@ Proof.
   - intros x Hx. eapply Permutation_in; [exact PU|]. apply U3.
     eapply Permutation_in; [apply Permutation_sym; exact PAi|exact Hx].
   - now rewrite (deps_acyclic_perm _ _ NP PP).
+  - intros q n Hq Hn. apply (PN q n); auto. eapply Permutation_in; [apply Permutation_sym; exact PP|exact Hq].
 Qed.
 
 Theorem typing_perm p p' : decl_perm p p' -> ProgOK teq p -> ProgOK teq p'.
